@@ -79,6 +79,20 @@ type sessOp struct {
 	delErr   bool // an injected storage Delete error hit this request
 	twice    bool // store route: Get + Save + Release once before the actual Get
 	badSave  bool // the program ends by storing a value gob cannot encode: the save must fail
+	// par: the handler runs fragA and fragB as two tasks on the SAME *Session object (a goroutine started by
+	// the handler); prog is empty then
+	par          bool
+	fragA, fragB []sessStep
+	parPreempt   int
+}
+
+// the outcomes a request with two concurrent fragments may have left for one id: resolved by the next
+// observation of that id
+type sessPending struct {
+	alts    []*sessModel // nil entry = the id yields no session
+	retired bool         // the id is the one Destroy / Regenerate / Reset of that request retired
+	by      int          // op id
+	what    string
 }
 
 // a type that is never registered with gob: saving a session holding it fails
@@ -191,9 +205,12 @@ func sessionMain(s *simrt.Sim, info *harness.RunInfo) {
 		}
 		return out
 	}
-	runProg := func(op *sessOp, sess *session.Session, m *session.Middleware) error {
-		for _, st := range op.prog {
+	runSteps := func(op *sessOp, tag string, steps []sessStep, sess *session.Session, m *session.Middleware) error {
+		for _, st := range steps {
 			simrt.Yield(500)
+			if tag != "" {
+				s.Logf("op%d %s: %v", op.id, tag, st)
+			}
 			switch st.kind {
 			case "set":
 				if m != nil {
@@ -239,6 +256,46 @@ func sessionMain(s *simrt.Sim, info *harness.RunInfo) {
 			}
 		}
 		return nil
+	}
+	// two fragments as two tasks on the same session object, interleaved by the scheduler at the mutex
+	// operations of the session (and of the middleware) and around every storage call
+	seqMode := !concurrent
+	runPar := func(op *sessOp, sess *session.Session, m *session.Middleware) error {
+		var wg sync.WaitGroup
+		var errs [2]error
+		if seqMode {
+			s.SetPreempt(op.parPreempt)
+		}
+		for fi, frag := range [][]sessStep{op.fragA, op.fragB} {
+			wg.Add(1)
+			tag := "frag" + string(rune('A'+fi))
+			simrt.GoNamed("op"+strconv.Itoa(op.id)+"-"+tag, func() {
+				defer wg.Done()
+				tid := simrt.TaskID()
+				opOfTask[tid] = op
+				defer delete(opOfTask, tid)
+				errs[fi] = runSteps(op, tag, frag, sess, m)
+				if errs[fi] != nil {
+					s.Logf("op%d %s returned %v", op.id, tag, errs[fi])
+				} else {
+					s.Logf("op%d %s returned nil", op.id, tag)
+				}
+			})
+		}
+		join(&wg)
+		if seqMode {
+			s.SetPreempt(0)
+		}
+		if errs[0] != nil {
+			return errs[0]
+		}
+		return errs[1]
+	}
+	runProg := func(op *sessOp, sess *session.Session, m *session.Middleware) error {
+		if op.par {
+			return runPar(op, sess, m)
+		}
+		return runSteps(op, "", op.prog, sess, m)
 	}
 	reply := func(c fiber.Ctx, op *sessOp) error {
 		b, _ := json.Marshal(op.obs)
@@ -390,7 +447,9 @@ func sessionMain(s *simrt.Sim, info *harness.RunInfo) {
 	type clientState struct {
 		current string
 		stale   []string
+		probe   []string // ids to present next (left by a request with concurrent fragments)
 	}
+	pending := map[string]*sessPending{}
 	clients := make([]*clientState, nclients)
 	for i := range clients {
 		clients[i] = &clientState{}
@@ -408,6 +467,10 @@ func sessionMain(s *simrt.Sim, info *harness.RunInfo) {
 		ops = append(ops, op)
 		// what to present
 		switch k := s.Draw(10); {
+		case len(cs.probe) > 0:
+			// an id a request with concurrent fragments left in one of several allowed states
+			op.present, op.presKind = cs.probe[0], "probe"
+			cs.probe = cs.probe[1:]
 		case absFocus && cs.current != "" && s.Chance(850):
 			op.present, op.presKind = cs.current, "current"
 		case k <= 4 && cs.current != "":
@@ -432,6 +495,9 @@ func sessionMain(s *simrt.Sim, info *harness.RunInfo) {
 		if concurrent && op.route == "resetall" {
 			op.route = "mw"
 		}
+		if op.presKind == "probe" && (op.route == "delete" || op.route == "resetall") {
+			op.route = "store"
+		}
 		if absFocus && s.Chance(700) {
 			op.route = "mw"
 		}
@@ -445,7 +511,37 @@ func sessionMain(s *simrt.Sim, info *harness.RunInfo) {
 			}
 		}
 		// program
-		if op.route == "mw" || op.route == "store" || op.route == "byid" {
+		if (op.route == "mw" || op.route == "store") && !absFocus && s.Chance(200) {
+			// two fragments on the same *Session object: A changes data (and saves, store API), B retires the id
+			op.par = true
+			op.parPreempt = simrt.PickS(s, 300, 150, 500)
+			for i, n := 0, s.Draw(3); i < n; i++ {
+				if s.Chance(200) {
+					op.fragA = append(op.fragA, sessStep{kind: "del", k: "k" + strconv.Itoa(s.Draw(3))})
+				} else {
+					op.fragA = append(op.fragA, sessStep{kind: "set", k: "k" + strconv.Itoa(s.Draw(3)), v: fmt.Sprintf("v%d.a%d", op.id, i)})
+				}
+			}
+			if op.route == "store" && !s.Chance(150) {
+				op.fragA = append(op.fragA, sessStep{kind: "save"})
+			}
+			kind := simrt.PickS(s, "destroy", "regen", "reset")
+			if kind == "destroy" && op.route == "store" && abs > 0 {
+				// a Save that follows a Destroy stores the session again without the absolute deadline, which
+				// Destroy cleared with the data: what deadline that session has is left open here
+				kind = simrt.PickS(s, "regen", "reset")
+			}
+			op.fragB = append(op.fragB, sessStep{kind: kind})
+			if kind != "destroy" {
+				if s.Chance(300) {
+					op.fragB = append(op.fragB, sessStep{kind: "set", k: "k" + strconv.Itoa(s.Draw(3)), v: fmt.Sprintf("v%d.b", op.id)})
+				}
+				if op.route == "store" && s.Chance(500) {
+					op.fragB = append(op.fragB, sessStep{kind: "save"})
+				}
+			}
+		}
+		if !op.par && (op.route == "mw" || op.route == "store" || op.route == "byid") {
 			n := s.Draw(4)
 			kinds := 8
 			if absFocus && s.Chance(800) {
@@ -517,7 +613,11 @@ func sessionMain(s *simrt.Sim, info *harness.RunInfo) {
 		if op.route == "byid" || op.route == "delete" {
 			pre = status(op.targetID, op.start)
 		}
-		s.Logf("op%d client%d %s present=%q(%s) target=%q prog=%v save=%v model=%d t=%s", op.id, ci, op.route, op.present, op.presKind, op.targetID, op.prog, op.save, pre, op.start.Format("04:05.000"))
+		if op.par {
+			s.Logf("op%d client%d %s present=%q(%s) CONCURRENT fragA=%v fragB=%v model=%d pending=%v t=%s", op.id, ci, op.route, op.present, op.presKind, op.fragA, op.fragB, pre, pending[op.present] != nil, op.start.Format("04:05.000"))
+		} else {
+			s.Logf("op%d client%d %s present=%q(%s) target=%q prog=%v save=%v model=%d pending=%v t=%s", op.id, ci, op.route, op.present, op.presKind, op.targetID, op.prog, op.save, pre, pending[op.present] != nil, op.start.Format("04:05.000"))
+		}
 		var resp *harness.Resp
 		func() {
 			defer func() {
